@@ -30,8 +30,8 @@ Ins == [P1 |-> <<"a", "b">>, P2 |-> <<"x", "b">>, P3 |-> <<"y", "q">>, P4 |-> <<
 Half == Period \div 2
 Never == 1000000000
 
-VARIABLES fn, scripts, curr, nxt, ready, todo, expect, phase, pc, obs, now, clkT, wait, deadline, sampled, woken
-vars == <<fn, scripts, curr, nxt, ready, todo, expect, phase, pc, obs, now, clkT, wait, deadline, sampled, woken>>
+VARIABLES fn, scripts, curr, nxt, ready, todo, expect, phase, pc, obs, now, clkT, wait, deadline, sampled, woken, wsig
+vars == <<fn, scripts, curr, nxt, ready, todo, expect, phase, pc, obs, now, clkT, wait, deadline, sampled, woken, wsig>>
 
 TBs == 1..Len(scripts)
 (* derived state observable by testbenches: "rq" is ONE two-bit register whose bit 0 is driven by the fragment   *)
@@ -58,9 +58,10 @@ Init ==
     /\ phase = "tb" /\ pc = [i \in TBs |-> 1] /\ obs = <<>> /\ now = 0 /\ clkT = Phase
     /\ wait = [i \in TBs |-> "none"] /\ deadline = [i \in TBs |-> Never]
     /\ sampled = curr /\ woken = [i \in TBs |-> FALSE]
+    /\ wsig = [i \in TBs |-> <<"", 0>>]          \* signal (and polarity) a changed() / edge() wait is about
 
 (* ------------------------------- testbenches ------------------------------- *)
-Runnable(i) == wait[i] = "ticked" \/ (wait[i] = "none" /\ pc[i] <= Len(scripts[i]))
+Runnable(i) == wait[i] \in {"ticked", "fired"} \/ (wait[i] = "none" /\ pc[i] <= Len(scripts[i]))
 AnyRunnable == \E i \in TBs : Runnable(i)
 (* testbenches always run in the order in which they were added *)
 NextTb == IF Mutant = "reverse_tb"
@@ -70,12 +71,24 @@ NextTb == IF Mutant = "reverse_tb"
 TbStep ==
     /\ phase = "tb" /\ AnyRunnable
     /\ LET i == NextTb
-           op == IF wait[i] = "ticked" THEN <<"resume">> ELSE scripts[i][pc[i]] IN
-       /\ pc' = IF wait[i] = "ticked" THEN pc ELSE [pc EXCEPT ![i] = @ + 1]
+           op == IF wait[i] = "ticked" THEN <<"resume">> ELSE IF wait[i] = "fired" THEN <<"resume2">> ELSE scripts[i][pc[i]] IN
+       /\ pc' = IF wait[i] \in {"ticked", "fired"} THEN pc ELSE [pc EXCEPT ![i] = @ + 1]
+       /\ wsig' = IF op[1] = "changed" THEN [wsig EXCEPT ![i] = <<op[2], 0>>]
+                  ELSE IF op[1] = "edge" THEN [wsig EXCEPT ![i] = <<op[2], op[3]>>] ELSE wsig
        /\ CASE op[1] = "resume" ->       \* the tick() this testbench waited for has happened: it receives the sample
                  /\ obs' = Append(obs, <<i, "tick", now, sampled["y"], sampled["r"], sampled["q"]>>)
                  /\ wait' = [wait EXCEPT ![i] = "none"]
                  /\ UNCHANGED <<nxt, phase, deadline, expect>>
+            [] op[1] = "resume2" ->      \* the changed() / edge() wait is over: the captured value is the settled one
+                 /\ obs' = Append(obs, <<i, "fired", now, wsig[i][1], curr[wsig[i][1]]>>)
+                 /\ wait' = [wait EXCEPT ![i] = "none"]
+                 /\ UNCHANGED <<nxt, phase, deadline, expect>>
+            [] op[1] = "changed" ->      \* wait until the signal changes (only signals that cannot glitch are used)
+                 /\ wait' = [wait EXCEPT ![i] = "chg"]
+                 /\ UNCHANGED <<nxt, obs, deadline, expect, phase>>
+            [] op[1] = "edge" ->         \* wait until the signal changes to the given polarity
+                 /\ wait' = [wait EXCEPT ![i] = "edge"]
+                 /\ UNCHANGED <<nxt, obs, deadline, expect, phase>>
             [] op[1] = "set" ->          \* the write returns only after all consequences have settled
                  /\ nxt' = [curr EXCEPT ![op[2]] = op[3]]
                  /\ expect' = nxt'
@@ -101,7 +114,7 @@ TbIdle ==
     /\ IF \A i \in TBs : pc[i] = Len(scripts[i]) + 1 /\ wait[i] = "none"
        THEN phase' = "done" /\ PrintT(<<"DONE", fn, scripts, obs>>)   \* the observations every schedule yields
        ELSE phase' = "time"
-    /\ UNCHANGED <<fn, scripts, curr, nxt, ready, todo, expect, pc, obs, now, clkT, wait, deadline, sampled, woken>>
+    /\ UNCHANGED <<fn, scripts, curr, nxt, ready, todo, expect, pc, obs, now, clkT, wait, deadline, sampled, woken, wsig>>
 
 (* -------------------------------- timeline -------------------------------- *)
 MinDeadline == LET S == {deadline[i] : i \in TBs} IN CHOOSE d \in S : \A e \in S : d <= e
@@ -116,7 +129,7 @@ AdvanceTime ==
        /\ deadline' = [i \in TBs |-> IF deadline[i] = Earliest THEN Never ELSE deadline[i]]
        /\ todo' = ready' /\ expect' = [curr EXCEPT !["clk"] = IF clkFires THEN 1 - curr["clk"] ELSE curr["clk"]]
        /\ phase' = IF ready' = {} THEN "converged" ELSE "eval"
-    /\ UNCHANGED <<fn, scripts, curr, nxt, pc, obs, wait, sampled>>
+    /\ UNCHANGED <<fn, scripts, curr, nxt, pc, obs, wait, sampled, wsig>>
 
 (* ------------------------------- delta cycle ------------------------------- *)
 RunProc(p) ==
@@ -124,7 +137,7 @@ RunProc(p) ==
     /\ nxt' = [nxt EXCEPT ![Out[p]] = Fun(p, IF Mutant = "read_pending" THEN nxt ELSE curr)]
     /\ todo' = todo \ {p}
     /\ phase' = IF todo' = {} THEN "commit" ELSE "eval"
-    /\ UNCHANGED <<fn, scripts, curr, ready, expect, pc, obs, now, clkT, wait, deadline, sampled, woken>>
+    /\ UNCHANGED <<fn, scripts, curr, ready, expect, pc, obs, now, clkT, wait, deadline, sampled, woken, wsig>>
 
 Changed == {s \in Sigs : nxt[s] # curr[s]}
 Sensitive(p) == IF p \in {"P3", "P4"} THEN ("clk" \in Changed /\ nxt["clk"] = 1)  \* clocked logic: active edge only
@@ -136,21 +149,25 @@ Commit ==
     /\ ready' = {p \in Procs : Sensitive(p)}
     /\ LET edge == "clk" \in Changed /\ nxt["clk"] = 1 IN
        /\ sampled' = IF edge THEN nxt ELSE sampled               \* before any register update
-       /\ woken' = [i \in TBs |-> woken[i] \/ (edge /\ wait[i] = "tick")]
+       /\ woken' = [i \in TBs |-> \/ woken[i]
+                                  \/ (edge /\ wait[i] = "tick")
+                                  \/ (wait[i] = "chg" /\ wsig[i][1] \in Changed)
+                                  \/ (wait[i] = "edge" /\ wsig[i][1] \in Changed /\ nxt[wsig[i][1]] = wsig[i][2])]
     /\ todo' = ready'
     /\ expect' = [s \in Sigs |-> IF \E p \in ready' : Out[p] = s
                                  THEN Fun(CHOOSE p \in ready' : Out[p] = s, nxt) ELSE nxt[s]]
     /\ phase' = IF ready' = {} THEN "converged" ELSE "eval"
-    /\ UNCHANGED <<fn, scripts, nxt, pc, obs, now, clkT, wait, deadline>>
+    /\ UNCHANGED <<fn, scripts, nxt, pc, obs, now, clkT, wait, deadline, wsig>>
 
 Converged ==           \* nothing is ready: wake the testbenches whose wait is over
     /\ phase = "converged"
     /\ phase' = "tb"
     /\ wait' = [i \in TBs |-> IF wait[i] = "set" THEN "none"
                               ELSE IF woken[i] /\ wait[i] = "tick" THEN "ticked"
+                              ELSE IF woken[i] /\ wait[i] \in {"chg", "edge"} THEN "fired"
                               ELSE IF woken[i] THEN "none" ELSE wait[i]]
     /\ woken' = [i \in TBs |-> FALSE]
-    /\ UNCHANGED <<fn, scripts, curr, nxt, ready, todo, expect, pc, obs, now, clkT, deadline, sampled>>
+    /\ UNCHANGED <<fn, scripts, curr, nxt, ready, todo, expect, pc, obs, now, clkT, deadline, sampled, wsig>>
 
 Next == TbStep \/ TbIdle \/ AdvanceTime \/ (\E p \in Procs : RunProc(p)) \/ Commit \/ Converged
 Spec == Init /\ [][Next]_vars
@@ -170,4 +187,7 @@ ClockTimes == (clkT - Phase) % Half = 0
 TbOrder == \A k \in 1..Len(obs), l \in 1..Len(obs) :
     (k < l /\ obs[k][2] = "tick" /\ obs[l][2] = "tick" /\ obs[k][3] = obs[l][3]) => obs[k][1] < obs[l][1]
 Done == phase = "done"
+(* a wait for a change that never comes lets time run forever: the model is explored up to a time bound; *)
+(* scripts that do not finish within it are simply not replayed                                          *)
+TimeBound == now <= 70
 =============================================================================
